@@ -30,7 +30,13 @@ type vGen struct {
 	maxIt  int
 	maxMet int
 	pads   []int
+	// zeroPct > 0: that share of the elements (log records, spans, data points) is left completely EMPTY - no timestamp, no
+	// body / name / value, no attributes: their proto encoding has length 0 (still 2 bytes inside the parent: tag + length
+	// 0). They carry no id (id 0, several of them), conservation is a multiset statement and covers them.
+	zeroPct int
 }
+
+func (g *vGen) empty() bool { return g.zeroPct > 0 && g.r.IntN(100) < g.zeroPct }
 
 func vNewGen(r *rand.Rand) *vGen {
 	g := &vGen{r: r, next: 1, maxRes: 4, maxSc: 4, maxIt: 6, maxMet: 4}
@@ -121,6 +127,9 @@ func (g *vGen) Logs() plog.Logs {
 			sl.SetSchemaUrl(vStr("u", g.maybe(g.id())))
 			for k, ni := 0, g.n(g.maxIt); k < ni; k++ {
 				lr := sl.LogRecords().AppendEmpty()
+				if g.empty() {
+					continue
+				}
 				lr.SetTimestamp(pcommon.Timestamp(g.id()))
 				if p := g.pad(); p != "" {
 					lr.Body().SetStr(p)
@@ -169,6 +178,9 @@ func (g *vGen) Traces() ptrace.Traces {
 			ss.SetSchemaUrl(vStr("u", g.maybe(g.id())))
 			for k, ni := 0, g.n(g.maxIt); k < ni; k++ {
 				sp := ss.Spans().AppendEmpty()
+				if g.empty() {
+					continue
+				}
 				sp.SetStartTimestamp(pcommon.Timestamp(g.id()))
 				sp.SetName(g.pad())
 			}
@@ -222,6 +234,9 @@ func (g *vGen) Metrics() pmetric.Metrics {
 }
 
 func (g *vGen) metric(mt pmetric.Metric) {
+	if g.zeroPct > 0 && g.r.IntN(6) == 0 {
+		return // a metric without name, type and points: its encoding is empty too
+	}
 	mt.SetName(vStr("m", g.id()))
 	mt.SetUnit(vStr("u", g.maybe(g.id())))
 	mt.SetDescription(vStr("d", g.maybe(g.id())))
@@ -236,6 +251,9 @@ func (g *vGen) metric(mt pmetric.Metric) {
 		dps := mt.SetEmptyGauge().DataPoints()
 		for p := 0; p < np; p++ {
 			dp := dps.AppendEmpty()
+			if g.empty() {
+				continue
+			}
 			dp.SetTimestamp(pcommon.Timestamp(g.id()))
 			dp.SetIntValue(int64(g.r.IntN(1000)))
 			if s := g.pad(); s != "" {
@@ -248,6 +266,9 @@ func (g *vGen) metric(mt pmetric.Metric) {
 		s.SetIsMonotonic(g.r.IntN(2) == 0)
 		for p := 0; p < np; p++ {
 			dp := s.DataPoints().AppendEmpty()
+			if g.empty() {
+				continue
+			}
 			dp.SetTimestamp(pcommon.Timestamp(g.id()))
 			dp.SetDoubleValue(1.5)
 			if s := g.pad(); s != "" {
@@ -259,6 +280,9 @@ func (g *vGen) metric(mt pmetric.Metric) {
 		h.SetAggregationTemporality(temps[g.r.IntN(3)])
 		for p := 0; p < np; p++ {
 			dp := h.DataPoints().AppendEmpty()
+			if g.empty() {
+				continue
+			}
 			dp.SetTimestamp(pcommon.Timestamp(g.id()))
 			dp.SetCount(uint64(g.r.IntN(300)))
 			if s := g.pad(); s != "" {
@@ -270,6 +294,9 @@ func (g *vGen) metric(mt pmetric.Metric) {
 		h.SetAggregationTemporality(temps[g.r.IntN(3)])
 		for p := 0; p < np; p++ {
 			dp := h.DataPoints().AppendEmpty()
+			if g.empty() {
+				continue
+			}
 			dp.SetTimestamp(pcommon.Timestamp(g.id()))
 			dp.SetScale(int32(g.r.IntN(4)))
 			if s := g.pad(); s != "" {
@@ -280,6 +307,9 @@ func (g *vGen) metric(mt pmetric.Metric) {
 		sdp := mt.SetEmptySummary().DataPoints()
 		for p := 0; p < np; p++ {
 			dp := sdp.AppendEmpty()
+			if g.empty() {
+				continue
+			}
 			dp.SetTimestamp(pcommon.Timestamp(g.id()))
 			dp.SetCount(uint64(g.r.IntN(300)))
 			if s := g.pad(); s != "" {
